@@ -258,13 +258,18 @@ fn classify(e: &Error) -> Outcome {
 }
 
 pub fn run_script(algo: Algo, script: &[Act]) -> Run {
+    run_script_div(algo, script, 1)
+}
+
+/// `div` > 1: keys 0 and 1 share their 64-bit hash
+pub fn run_script_div(algo: Algo, script: &[Act], div: u64) -> Run {
     let rt_call = tokio::runtime::Builder::new_current_thread().build().unwrap();
     let mut rt_fetch = Some(tokio::runtime::Builder::new_current_thread().build().unwrap());
     let spawner = Spawner::from(rt_fetch.as_ref().unwrap().handle().clone());
     let cache: MCache = CacheBuilder::new(1000)
         .with_shards(1)
         .with_eviction_config(AlgoCfg::default_for(algo).eviction_config())
-        .with_hash_builder(DivHasher { div: 1 })
+        .with_hash_builder(DivHasher { div })
         .build();
     let mut model = Model::default();
     let mut callers: Vec<Caller> = vec![];
@@ -579,7 +584,11 @@ fn alphabet(c11: bool) -> Vec<Act> {
 }
 
 fn judge(prop: &str, algo: Algo, script: &[Act], res: &mut ShardResult) {
-    let r = std::panic::catch_unwind(std::panic::AssertUnwindSafe(|| run_script(algo, script)));
+    judge_div(prop, algo, script, 1, res)
+}
+
+fn judge_div(prop: &str, algo: Algo, script: &[Act], div: u64, res: &mut ShardResult) {
+    let r = std::panic::catch_unwind(std::panic::AssertUnwindSafe(|| run_script_div(algo, script, div)));
     res.evaluations += 1;
     match r {
         Ok(run) => {
@@ -605,7 +614,7 @@ fn judge(prop: &str, algo: Algo, script: &[Act], res: &mut ShardResult) {
                 res.violate(
                     format!("{prop}:{sig}"),
                     format!("{detail} [{algo:?}]"),
-                    json!({"check":"fetchseq","prop":prop,"algo":algo,"script":script,"outcomes":run.outcomes,"expected":run.expected}),
+                    json!({"check":"fetchseq","prop":prop,"algo":algo,"script":script,"div":div,"outcomes":run.outcomes,"expected":run.expected}),
                 );
             }
         }
@@ -686,7 +695,11 @@ pub fn run(prop: &str, seed: u64, tier: &str, shard: usize, nshards: usize) -> S
         if !c11 && rng.chance(1, 5) {
             script.push(Act::CancelFetchRuntime);
         }
-        judge(prop, algo, &script, &mut res);
+        let div = if i % 3 == 0 { 2 } else { 1 };
+        if div == 2 {
+            res.count("random_cases_with_colliding_keys", 1);
+        }
+        judge_div(prop, algo, &script, div, &mut res);
         res.count("random_cases", 1);
     }
     res
